@@ -79,6 +79,56 @@ pub fn run(cx: &mut Ctx) {
     quote_choice(cx, &esc);
     fast_path(cx, &esc);
     writer_reader(cx, "C16.W1");
+    printable_predicate(cx);
+}
+
+/// P1: which code points are written verbatim.
+fn printable_predicate(cx: &mut Ctx) {
+    let rule = "C16.P1";
+    cx.rule(rule, "is_printable (literal/src/char.rs), interpreted with the two category predicates as free booleans, is exactly `not Other and not Separator` of the character's general category — Python's str.isprintable for non-ASCII characters (ASCII is decided by the escape tables before it is asked) — and depends on nothing else about the character");
+    cx.floor(rule, 4);
+    let src = match sm::load(&cx.repo, "literal/src/char.rs") {
+        Ok(s) => s,
+        Err(e) => return cx.anchor_missing(rule, &e),
+    };
+    let Some(f) = src.free_fns("is_printable").into_iter().next() else { return cx.anchor_missing(rule, "is_printable") };
+    let t = sm::tsc(&f.block);
+    if !t.contains("GeneralCategory::of(c)") {
+        cx.fail(rule, &format!("{}/category", rule), &src.loc(f), "is_printable does not classify by GeneralCategory::of(c)");
+    }
+    let mut bad = vec![];
+    for other in [false, true] {
+        for sep in [false, true] {
+            let mut results = std::collections::BTreeSet::new();
+            for extra in [false, true] {
+                let methods = move |recv: &crate::eval::V, name: &str, _args: &[crate::eval::V]| -> Option<crate::eval::V> {
+                    match (recv, name) {
+                        (crate::eval::V::Enum(_), "is_other") => Some(crate::eval::V::Bool(other)),
+                        (crate::eval::V::Enum(_), "is_separator") => Some(crate::eval::V::Bool(sep)),
+                        // any other predicate on the category or the character is a free boolean
+                        (_, n) if n.starts_with("is_") => Some(crate::eval::V::Bool(extra)),
+                        _ => None,
+                    }
+                };
+                let fns = |_: &crate::eval::V, name: &str, _a: &[crate::eval::V]| -> Option<crate::eval::V> {
+                    if name.ends_with("GeneralCategory::of") { Some(crate::eval::V::Enum("Category".into())) } else { None }
+                };
+                let both = move |r: &crate::eval::V, n: &str, a: &[crate::eval::V]| methods(r, n, a).or_else(|| fns(r, n, a));
+                let mut m = crate::eval::Machine::new(&both);
+                m.set("c", crate::eval::V::Char(0x3000));
+                results.insert(format!("{:?}", m.eval_block(&f.block)));
+            }
+            let want = format!("{:?}", Ok::<crate::eval::V, String>(crate::eval::V::Bool(!(other || sep))));
+            if results.len() == 1 && results.contains(&want) {
+                cx.ok(rule, &format!("Other={} Separator={} -> printable={}", other, sep, !(other || sep)));
+            } else {
+                bad.push(format!("Other={} Separator={} -> {:?}", other, sep, results));
+            }
+        }
+    }
+    if !bad.is_empty() {
+        cx.fail(rule, &format!("{}/predicate", rule), &src.loc(f), &format!("is_printable is not `!(is_other || is_separator)`: {}", bad.join("; ")));
+    }
 }
 
 fn layout_shape_ok(src: &Src, ty: &str) -> Result<(), String> {
